@@ -262,3 +262,13 @@ def run(ck):
                         adv = True
         ok = ret_ok and bad is None and adv
     ck.verdict(ok, "5", "T6-provenance", ins, "insert:returns-stored-counter,advances-it", "insert stores the current counter in the heap entry, returns it and advances the wheel's counter by one on every path", "TimerWheel::insert does not hand out a fresh counter per arming (cancel by counter would hit the wrong timer)", site=ins.where())
+
+    # ---- clause 7: the post-action plumbing a timer's Drop / reschedule relies on -----------------------------
+    # (a deferred Disable/Reregister parked by another source must never reach a timer: shared with C09.1)
+    from props import C09
+    from props.common import DispatchLoop
+
+    try:
+        C09.take_and_reset(ck, "7", DispatchLoop(ck, "7"))
+    except AnchorMissing:
+        pass
